@@ -177,7 +177,7 @@ func genFENText(t *rapid.T) string {
 }
 
 func TestC19_fen(t *testing.T) {
-	runRapid(t, "C19/fen", 60000, func(t *rapid.T) textCase {
+	runRapid(t, "C19/fen", 240000, func(t *rapid.T) textCase {
 		return textCase{Text: genFENText(t)}
 	}, func(c textCase) error {
 		stats.Sample("C19/fen", c.Text)
@@ -254,7 +254,7 @@ func genMoveText(t *rapid.T) string {
 }
 
 func TestC19_move(t *testing.T) {
-	runRapid(t, "C19/move", 60000, func(t *rapid.T) textCase {
+	runRapid(t, "C19/move", 240000, func(t *rapid.T) textCase {
 		return textCase{Text: genMoveText(t)}
 	}, func(c textCase) error {
 		stats.Sample("C19/move", c.Text)
@@ -370,7 +370,7 @@ func genEngineMoveCase(t *rapid.T) engineMoveCase {
 }
 
 func TestC19_enginemove(t *testing.T) {
-	runRapid(t, "C19/enginemove", 16000, genEngineMoveCase, func(c engineMoveCase) error {
+	runRapid(t, "C19/enginemove", 48000, genEngineMoveCase, func(c engineMoveCase) error {
 		stats.Sample("C19/enginemove", c)
 		return checkC19EngineMove(c)
 	})
@@ -483,7 +483,7 @@ var checkC19EngineSeq = def("C19/engineseq", func(c engineSeqCase) error {
 })
 
 func TestC19_engineseq(t *testing.T) {
-	runRapid(t, "C19/engineseq", 8000, func(t *rapid.T) engineSeqCase {
+	runRapid(t, "C19/engineseq", 32000, func(t *rapid.T) engineSeqCase {
 		st := gen.Start(t)
 		c := engineSeqCase{FEN: st.FEN()}
 		g := oracle.NewGame(st)
